@@ -1,5 +1,5 @@
 """C08 - copy-on-write: a write through make_mut is never seen through another handle."""
-from .. import balance, cfg, core
+from .. import atomics, balance, cfg, core
 from ..effects import ZERO, vget
 from . import c04
 
@@ -30,6 +30,11 @@ def rule_cow(ctx, rep):
                     rep.bad("R-COW", key + "/path-set", msg, F.loc(b), tag)
                 else:
                     rep.ok("R-COW", key + "/path-set", cfg=tag)
+                stale = _stale_pointer(F, b)
+                if stale:
+                    rep.bad("R-COW", key + "/fresh-pointer", "the `&mut` handed out (line %s) is built on the handle's pointer as it was read at line %s, and a store that redirects the handle (line %s) can happen after that read: on the shared branch the reference points into the *old* allocation - writes are seen by every other owner and not through this handle" % stale, F.loc(b), tag)
+                else:
+                    rep.ok("R-COW", key + "/fresh-pointer", cfg=tag)
                 reads_out = any(e["kind"] == "MAKE" and str(e["detail"].get("via", "")).startswith("core::ptr::read") for p in prs for e in p.events) or any(e["kind"] == "CALL" and _reads_and_parks(F, A, e["detail"].get("callee")) for p in prs for e in p.events)
                 tkeys = {x["key"] for (h2, n2) in targets for x in F.method(h2, n2)} - {key}
                 dk = _delegates_to(F, A, b, prs, tkeys)
@@ -44,6 +49,45 @@ def rule_cow(ctx, rep):
                 else:
                     _offset_cow(F, A, b, prs, rep, tag)
     rep.floor("R-COW", 9, "3 functions x (path set, order, gate/write-back)")
+
+
+def _stale_pointer(F, b):
+    """The payload borrow a copy-on-write function returns must be built on the handle's pointer as read *after* every store that
+    can redirect the handle: (line of the borrow, line of the pointer read, line of the store) if a store into `*this` is
+    reachable from the block in which the pointer under the returned borrow was read, else None."""
+    from . import c03
+    from ..facts import operand_place
+
+    B = cfg.Body(b)
+    margs = [i + 1 for i, t in enumerate(b.get("inputs", [])) if F.ty(t)["k"] == "ref" and F.ty(t)["mut"] and F.tokens(F.ty(t)["t"])[0] > 0]
+    if not margs:
+        return None
+    stores = []
+    for bi, bl in enumerate(b["blocks"]):
+        for st in bl["stmts"]:
+            if st["k"] == "assign" and st["lhs"]["p"] == ["deref"] and (st["lhs"]["l"] in margs or c03.root_args(B, st["lhs"]["l"]) & set(margs)):
+                stores.append((bi, st["span"]["line"]))
+        t = bl["term"]
+        if t["k"] == "call" and (atomics.callee_of(t) or "") in ("core::mem::replace", "core::ptr::write", "<*mut T>::write") and t["args"]:
+            pl = operand_place(t["args"][0])
+            if pl is not None and F.tokens(F.strip_refs(pl.get("ty", 0)) if "ty" in pl else 0)[0] > 0 and (pl["l"] in margs or c03.root_args(B, pl["l"]) & set(margs)):
+                stores.append((bi, t["span"]["line"]))
+    if not stores:
+        return None
+    for bi, bl in enumerate(b["blocks"]):
+        for st in bl["stmts"]:
+            if st["k"] != "assign" or st["rv"]["k"] != "ref" or not st["rv"]["mut"] or not c03._has_data(F, st["rv"]["place"]):
+                continue
+            o = B.origin_local(st["rv"]["place"]["l"])
+            rb = o.get("bb") if o.get("kind") in ("call", "rvalue") else None
+            if rb is None:
+                continue
+            reach = B.reach(rb, normal_only=True)
+            for sb, sline in stores:
+                if sb in reach and (sb != rb):
+                    rline = (o["term"]["span"]["line"] if o.get("kind") == "call" else st["span"]["line"])
+                    return (st["span"]["line"], rline, sline)
+    return None
 
 
 def _delegates_to(F, A, b, prs, tkeys):
@@ -382,6 +426,7 @@ def main(argv):
             "observation; schedules (reduced to C02/C03)."
             ' Round fourteen: c12.union_dispatch as a premise (the sole-owner verdict reads a count that owners held by an ArcUnion must have reached).'
             ' Round fifteen: strict R-RACY-ASSERT (no assertion about a re-read count that a racing clone or drop can falsify).'
+            " Round sixteen: R-COW fresh-pointer (the returned borrow is built on the handle's pointer as read after every store into the handle)."
         ),
         rule_text="instances = (function, path-set | order | gate/write-back)",
         trusted_base=["rustc nightly MIR and trait resolution", "std model table", "C03's gate and C02's ordering lemma for the concurrent part"],
